@@ -690,6 +690,13 @@ func worker(w *core.Worker) {
 			os.Exit(3)
 		}
 		w.Case(0, "replay")
+		if os.Getenv("C22_SHOWERR") != "" { // debugging aid: show what Compile reports
+			func() {
+				defer func() { recover() }()
+				_, err := compiler.Compile(context.Background(), "c22.tm", string(data), compiler.Params{CheckOnly: true})
+				status.Print(os.Stderr, err)
+			}()
+		}
 		res := runCase(string(data))
 		for _, f := range res.findings {
 			w.Emit(record{T: "v", Key: f.Key, What: f.What, CheckOnly: f.CheckOnly})
